@@ -186,7 +186,7 @@ def run(ctx):
     results = core.run_cases(ctx, "harness.lib", "call_c10", cases, chunk=50)
     records, nabs = [], 0
     for i, (c, r) in enumerate(zip(cases, results)):
-        rec = {"kind": "c10", "tid": i, "R": c["R"], "present": c["present"], "gen": c["gen"], "pdf": c["pdf"], "maxparts": c.get("maxparts", 3), "y4": bool(c.get("y4")),
+        rec = {"kind": "c10", "tid": i, "R": c["R"], "present": c["present"], "gen": c["gen"], "pdf": c["pdf"], "maxparts": c.get("maxparts", 3), "y4": bool(c.get("y4")), "conv": bool((c.get("settings") or {}).get("TO_TIMEZONE")),
                "dorder": c.get("dorder", "")}
         rec.update(r["runs"])
         if c["parser"] == "fmt" and r["clock0"][:3] != r["clock1"][:3]:
